@@ -18,6 +18,7 @@ import dns.tsig
 import dns.update
 import dns.rdtypes.ANY.NS
 import dns.rdtypes.ANY.RRSIG
+import dns.rdtypes.ANY.SIG
 import dns.rdtypes.ANY.SOA
 import dns.rdtypes.ANY.TXT
 import dns.rdtypes.IN.A
@@ -25,7 +26,7 @@ import dns.rdtypes.IN.SRV
 
 IN = dns.rdataclass.IN
 ORIGIN = dns.name.Name((b"ex", b""))
-KIND_TYPE = {"A": 1, "NS": 2, "SOA": 6, "TXT": 16, "SRV": 33, "RRSIG": 46, "BIG": 65280}
+KIND_TYPE = {"SIG": 24, "NULL": 10, "A": 1, "NS": 2, "SOA": 6, "TXT": 16, "SRV": 33, "RRSIG": 46, "BIG": 65280}
 
 
 def labels(n):
@@ -62,8 +63,13 @@ def make_rdata(kind, n1, n2, k, rel, rdclass=IN):
         return dns.rdtypes.ANY.SOA.SOA(rdclass, 6, mkname(n1, rel), mkname(n2, rel), k, 3600, 600, 86400, 300)
     if kind == "SRV":
         return dns.rdtypes.IN.SRV.SRV(IN, 33, k, 5, 53, mkname(n1, rel))
+    if kind == "NULL":
+        return dns.rdata.GenericRdata(rdclass, 10, b"\xaa" * k)
+    if kind == "SIG":
+        return dns.rdtypes.ANY.SIG.SIG(rdclass, 24, 1 if k % 2 else 2, 8, 2, 300, 1893456000, 1577836800, 1000 + k,
+                                       mkname(n1, rel), bytes([0, 0, k]))
     if kind == "RRSIG":
-        return dns.rdtypes.ANY.RRSIG.RRSIG(rdclass, 46, 1, 8, 2, 300, 1893456000, 1577836800, 1000 + k,
+        return dns.rdtypes.ANY.RRSIG.RRSIG(rdclass, 46, 1 if k % 2 else 2, 8, 2, 300, 1893456000, 1577836800, 1000 + k,
                                            mkname(n1, rel), bytes([0, 0, k]))
     if kind == "TXT":
         return dns.rdtypes.ANY.TXT.TXT(rdclass, 16, [bytes([120 + k // 1000]) * (k % 1000)])
@@ -328,7 +334,8 @@ def high_level(script, rel, mode, variants=False):
         e["wire"] = list(wire)
         # TCP framing: 2-octet length + the same message
         e["wirep"] = list(m.to_wire(max_size=65535, want_shuffle=False, prepend_length=True))
-        m2 = dns.message.from_wire(wire, origin=ORIGIN if rel else None)
+        xfr = bool(script[0].get("xfr"))      # zone-transfer style content is parsed the way dns.query.xfr parses it
+        m2 = dns.message.from_wire(wire, origin=ORIGIN if rel else None, xfr=xfr)
         e["parsed"] = proj_message(m2, rel)
         e["eq"] = bool(m == m2) and bool(m2 == m)
         e["cls2"] = type(m2).__name__
